@@ -235,6 +235,9 @@ type parStep struct {
 	WantRet bool    `json:"wantret"`
 	Msg     wsReq   `json:"msg"`
 	Prio    []int   `json:"prio,omitempty"`
+	// Hold: keep the worker that got this node's reply at the schedule point
+	// client.parAccept until all other nodes have answered (needs Prio)
+	Hold *int `json:"hold,omitempty"`
 }
 
 type parInput struct {
@@ -261,6 +264,39 @@ type stepOut struct {
 	First    retObs   `json:"first"`
 	Final    retObs   `json:"final"`
 	Raw      string   `json:"raw,omitempty"`
+	// Provisional: written when the call has returned, before the held replies are let
+	// through; replaced by the final record of the step unless the process dies first
+	Provisional bool `json:"provisional,omitempty"`
+	Died        bool `json:"died,omitempty"`
+	// Unreached: the schedule point the step needs does not exist in this tree
+	Unreached bool `json:"unreached,omitempty"`
+}
+
+// the worker held at client.parAccept
+var holdMu sync.Mutex
+var holdNode *network.ServerIdentity
+var holdArrived chan struct{}
+var holdRelease chan struct{}
+
+func parHook(point string, args ...interface{}) {
+	if point != "client.parAccept" || len(args) == 0 {
+		return
+	}
+	si, ok := args[0].(*network.ServerIdentity)
+	if !ok {
+		return
+	}
+	holdMu.Lock()
+	match := holdNode != nil && holdNode.ID.Equal(si.ID)
+	arr, rel := holdArrived, holdRelease
+	if match {
+		holdNode = nil // once
+	}
+	holdMu.Unlock()
+	if match {
+		close(arr)
+		<-rel
+	}
 }
 
 func msgQ(w *wsReq) *MsgQ {
@@ -319,6 +355,7 @@ func runPar(in *input, emit func(interface{})) (discard bool, hung bool) {
 	})
 	log.OutputToBuf()
 	defer func() { log.GetStdOut(); log.GetStdErr() }()
+	onet.SetVerifHook(parHook)
 	p := in.Par
 	l := onet.NewTCPTest(suite)
 	l.Check = onet.CheckNone
@@ -433,6 +470,36 @@ func runPar(in *input, emit func(interface{})) (discard bool, hung bool) {
 			<-gateArrived
 		}
 		so := stepOut{}
+		var hArr, hRel chan struct{}
+		if st.Hold != nil && *st.Hold >= 0 && *st.Hold < len(sis) {
+			hArr, hRel = make(chan struct{}), make(chan struct{})
+			holdMu.Lock()
+			holdNode, holdArrived, holdRelease = sis[*st.Hold], hArr, hRel
+			holdMu.Unlock()
+		}
+		releaseHold := func() {
+			if hRel != nil {
+				holdMu.Lock()
+				holdNode = nil
+				holdMu.Unlock()
+				select {
+				case <-hRel:
+				default:
+					close(hRel)
+				}
+			}
+		}
+		holdReached := func() bool {
+			if hArr == nil {
+				return true
+			}
+			select {
+			case <-hArr:
+				return true
+			default:
+				return false
+			}
+		}
 		returned := make(chan struct{})
 		go func() {
 			defer close(returned)
@@ -491,12 +558,23 @@ func runPar(in *input, emit func(interface{})) (discard bool, hung bool) {
 				waiting = append(waiting[:best], waiting[best+1:]...)
 			}
 		}
+		if hArr != nil {
+			reached := holdReached()
+			if !isReturned() {
+				// everybody else has answered and the call still waits: let the held worker go on
+				releaseHold()
+			}
+			if !reached {
+				so.Unreached = true
+			}
+		}
 		select {
 		case <-returned:
 			so.Returned = true
 		case <-time.After(roundDeadline):
 		}
 		if !so.Returned {
+			releaseHold()
 			for _, g := range ids {
 				g.open()
 			}
@@ -504,6 +582,12 @@ func runPar(in *input, emit func(interface{})) (discard bool, hung bool) {
 			return false, true
 		}
 		so.First = snapRet(ret, &mu)
+		if hArr != nil {
+			prov := so
+			prov.Provisional = true
+			emit(prov)
+		}
+		releaseHold()
 		// now let the held replies through and wait until every worker is gone
 		for id, g := range ids {
 			g.open()
@@ -558,15 +642,29 @@ func coqRet(r retObs) string {
 
 func parCase(in *input, lines []json.RawMessage, died string) lib.Case {
 	p := in.Par
-	obs := make([]stepOut, len(lines))
+	var obs []stepOut
 	for i, l := range lines {
-		if err := json.Unmarshal(l, &obs[i]); err != nil {
+		var o stepOut
+		if err := json.Unmarshal(l, &o); err != nil {
 			panic(err)
 		}
+		if o.Provisional && i+1 < len(lines) {
+			continue // the step went on to its end
+		}
+		obs = append(obs, o)
 	}
 	crashed := died != ""
-	if crashed && len(obs) < len(p.Steps) && died != "hung" {
-		obs = append(obs, stepOut{Raw: died})
+	if n := len(obs); n > 0 && obs[n-1].Provisional {
+		// the process died (or hung) after the call had returned
+		obs[n-1].Died = true
+		obs[n-1].Raw = died
+	} else if crashed && len(obs) < len(p.Steps) && died != "hung" {
+		obs = append(obs, stepOut{Raw: died, Died: true})
+	}
+	for _, o := range obs {
+		if o.Unreached {
+			return lib.Case{Discard: true}
+		}
 	}
 	steps := p.Steps[:len(obs)]
 	bs := make([]string, len(p.Nodes))
@@ -575,7 +673,7 @@ func parCase(in *input, lines []json.RawMessage, died string) lib.Case {
 	}
 	ss := make([]string, len(steps))
 	os := make([]string, len(steps))
-	scripted, free, sends := false, false, false
+	scripted, free, sends, quitrace := false, false, false, false
 	for i, st := range steps {
 		o := obs[i]
 		if !st.Call {
@@ -600,9 +698,14 @@ func parCase(in *input, lines []json.RawMessage, died string) lib.Case {
 			free = true
 		}
 		op := st.Opts
-		ss[i] = fmt.Sprintf("(StCall (POpts %s %d %d %d %s %s %s) %s %s %s %s)", lib.Bool(op.Nil), op.Parallel, op.Ask, op.Start,
+		hold := "None"
+		if st.Hold != nil {
+			hold = fmt.Sprintf("(Some %d)", *st.Hold)
+			quitrace = true
+		}
+		ss[i] = fmt.Sprintf("(StCall (POpts %s %d %d %d %s %s %s) %s %s %s %s %s)", lib.Bool(op.Nil), op.Parallel, op.Ask, op.Start,
 			lib.Bool(op.Quit), lib.NatList(op.Ignore), lib.Bool(op.NoShuffle), lib.Bool(st.Decoder), lib.Bool(st.WantRet),
-			coqPMsg(&st.Msg), lib.NatList(st.Prio))
+			coqPMsg(&st.Msg), lib.NatList(st.Prio), hold)
 		res := "None"
 		switch {
 		case !o.Returned:
@@ -617,9 +720,12 @@ func parCase(in *input, lines []json.RawMessage, died string) lib.Case {
 		default:
 			res = "(Some RCrash)"
 		}
-		os[i] = fmt.Sprintf("(OCall %s %s %s)", res, coqRet(o.First), coqRet(o.Final))
+		os[i] = fmt.Sprintf("(OCall %s %s %s %s)", res, coqRet(o.First), coqRet(o.Final), lib.Bool(o.Died))
 	}
 	class := "par"
+	if quitrace {
+		class += "-quitrace"
+	}
 	if sends {
 		class += "-send"
 	}
@@ -722,6 +828,32 @@ func genParOpts(rng *rand.Rand, n int) parOpts {
 	return o
 }
 
+// QuitError with one node answering and the others failing, all in flight together: the
+// worker of the answering node is held between its check of [done] and its close while
+// the others fail, then let go
+func quitRaceScenario(rng *rand.Rand, n int) input {
+	k := 2 + rng.Intn(2)
+	okAt := rng.Intn(k)
+	p := &parInput{Keep: n%2 == 0}
+	var prio []int
+	prio = append(prio, okAt)
+	for i := 0; i < k; i++ {
+		b := []string{"fail", "panic"}[rng.Intn(2)]
+		if i == okAt {
+			b = "ok"
+		} else {
+			prio = append(prio, i)
+		}
+		p.Nodes = append(p.Nodes, b)
+	}
+	msg := wsReq{S: sp(fmt.Sprintf("r%d", n)), I: ip(int64(rng.Intn(100))), B: bp(rng.Intn(2) == 0), D: sp(dPool[rng.Intn(len(dPool))])}
+	p.Steps = append(p.Steps, parStep{Call: true, Opts: parOpts{NoShuffle: true, Parallel: k, Quit: true}, Decoder: rng.Intn(2) == 0,
+		WantRet: rng.Intn(4) > 0, Msg: msg, Prio: prio, Hold: &okAt})
+	// afterwards the client is still usable
+	p.Steps = append(p.Steps, parStep{Send: []parCall{{okAt, msg}}})
+	return input{Kind: "par", Par: p}
+}
+
 func parScenario(rng *rand.Rand, n int) input {
 	k := 2 + rng.Intn(3)
 	p := &parInput{Keep: n%4 != 3}
@@ -773,6 +905,17 @@ func parScenario(rng *rand.Rand, n int) input {
 // answering differently, two workers; node 0 answers first and is accepted, the
 // call returns, then the others answer; ret is read at the return and again after
 // every worker has finished
+// C14-N1: two nodes in flight, QuitError; node 1 answers and its worker is held at
+// client.parAccept; node 0 fails: the call returns the error; the worker goes on
+func quitRaceWitness() input {
+	msg := wsReq{S: sp("q"), I: ip(0), B: bp(true), D: sp("")}
+	one := 1
+	return input{Kind: "witness", Par: &parInput{Nodes: []string{"fail", "ok"}, Keep: true, Steps: []parStep{
+		{Call: true, Opts: parOpts{NoShuffle: true, Parallel: 2, Quit: true}, Decoder: true, WantRet: true, Msg: msg, Prio: []int{1, 0}, Hold: &one},
+		{Send: []parCall{{1, msg}}},
+	}}}
+}
+
 func parWitness() input {
 	msg := wsReq{S: sp("who"), I: ip(7), B: bp(true), D: sp("0102")}
 	return input{Kind: "witness", Par: &parInput{Nodes: []string{"ok", "ok", "ok"}, Keep: true, Steps: []parStep{
